@@ -130,13 +130,23 @@ class FnVerifier:
     def note_bounded(self, key, k):
         self.bounded_notes[key] = k
 
+    def first_line(self, node):
+        """first source line of a statement (cached: get_source_segment re-splits the file each time)"""
+        c = self.__dict__.setdefault("_line_cache", {})
+        k = id(node)
+        if k not in c:
+            if "_src_lines" not in self.__dict__:
+                self._src_lines = self.src.split("\n")
+            ln = getattr(node, "lineno", None)
+            c[k] = self._src_lines[ln - 1][getattr(node, "col_offset", 0):] if ln else ""
+        return c[k]
+
     def abstract_for(self, node):
         for ab in self.c.abstract:
             if ab.get("match") and ab["match"](node, self):
                 return ab
             if "line_contains" in ab:
-                seg = ast.get_source_segment(self.src, node) or ""
-                first = seg.split("\n")[0]
+                first = self.first_line(node)
                 if ab["line_contains"] in first and isinstance(node, ab.get("types", ast.stmt)):
                     return ab
         return None
@@ -234,7 +244,9 @@ class FnVerifier:
             hook(R, base, attr, val)
 
     def havoc_extra(self, R, spec):
-        pass
+        h = self.c.hooks.get("loop")
+        if h:
+            h(R)
 
     def havoc_cell_ghost(self, R, loc, g, base):
         g2 = dict(g)
@@ -365,12 +377,21 @@ class FnVerifier:
             return r
         if k == "set":
             c = V(ty.content(), z3.Const(name, ty.content().sort()))
-            return R.alloc(ty, c)
+            r = R.alloc(ty, c)
+            sz = z3.Int(name + ".size")
+            R.assume(sz >= 0)
+            R.heap[r.z].ghost = {"size": sz}
+            return r
         if k == "drec":
             fields = {}
             r = R.alloc(ty, fields)
-            for fn_, ft in ty.rec().fields.items():
-                fields[fn_] = V(ft, z3.Const("%s[%s]" % (name, fn_), ft.sort()))
+            for fn_, ft in ty.fields.items():
+                if ft.heap:
+                    fields[fn_] = self.alloc_symbolic(R, ft, "%s[%s]" % (name, fn_))
+                else:
+                    fields[fn_] = V(ft, z3.Const("%s[%s]" % (name, fn_), ft.sort()))
+            for o_ in ty.optional:
+                fields["has_" + o_] = V(T.Bool, z3.Bool("%s[has_%s]" % (name, o_)))
             return r
         if k == "obj":
             fields = {}
@@ -494,7 +515,7 @@ class FnVerifier:
         seg = None
         for a in self.c.asserts:
             if seg is None:
-                seg = (ast.get_source_segment(self.src, node) or "").strip()
+                seg = self.first_line(node).strip()
             if seg.startswith(a["before"]):
                 if "emit" in a:
                     ev, src = a["emit"][0], a["emit"][1]
@@ -508,7 +529,10 @@ class FnVerifier:
                             R.pure = saved
                     self.emit_log(R, ev, val)
                     continue
-                g = R.truthy(R.spec_eval_in_frame(a["clause"], frame, {}))
+                try:
+                    g = R.truthy(R.spec_eval_in_frame(a["clause"], frame, {}))
+                except ClauseVacuous:
+                    continue
                 self.add_obligation(R, "assert", a["label"], g, clause=a["clause"], line=node.lineno)
 
     def events_in(self, stmts):
@@ -625,6 +649,9 @@ class FnVerifier:
             opts = ["ok"] + list(ext.raises)
             ch = R.choose(opts, R.lab(node, name + "!"))
             if ch != "ok":
+                hr = self.c.hooks.get("event_result")
+                if hr and ext.event:
+                    hr(R, R.trace[-1], ch, node)
                 exact = not ch.endswith("+")
                 raise PyRaise(Exc(exc_canon(ch.rstrip("+")), exact=exact, tag="external " + name))
         old = R.snapshot() if ext.havoc else None
@@ -661,6 +688,13 @@ class FnVerifier:
             R.assume(R.truthy(self.spec_in_env(R, en, env, old_heap=old)))
         if ext.bind:
             R.base_env[ext.bind] = res
+        if ext.event:
+            R.trace[-1].result = res
+            hr = self.c.hooks.get("event_result")
+            if hr and not R.pure:
+                hr(R, R.trace[-1], "ok", node)
+        if getattr(ext, "snapshot", None) and ext.snapshot not in R.named_heaps:
+            R.named_heaps[ext.snapshot] = R.snapshot()
         if ext.event and ext.log == "result" and not res.t.heap and not res.is_const:
             self.emit_log(R, ext.event, res)
         return res
